@@ -726,6 +726,9 @@ func (c *c13Client) List(_ context.Context, l client.ObjectList, opts ...client.
 		if !x.NoComp {
 			xr.SetCompositionReference(&corev1.ObjectReference{Name: "comp"})
 		}
+		if x.Rev > 0 {
+			xr.SetCompositionRevisionReference(&corev1.LocalObjectReference{Name: "rev-" + strconv.Itoa(x.Rev)})
+		}
 		if x.NotReady {
 			xr.SetConditions(xpv1.Creating())
 		} else {
